@@ -982,7 +982,7 @@ func TestC17ThresholdRSAAll(t *testing.T) {
 				x := ci + v + vlib.Seed
 				c := rsaCfg{l: l, k: k, pk: ks[x%len(ks)], cache: x%2 == 0, blind: (x/2)%2 == 0, parallel: (x/4)%2 == 0,
 					padding: []string{"pkcs1v15", "pss"}[(x/3)%2], hash: crypto.SHA256, saltMode: "equals-hash",
-					msg: []byte(fmt.Sprintf("C17 all-subsets l=%d k=%d v=%d", l, k, v)),
+					msg:      []byte(fmt.Sprintf("C17 all-subsets l=%d k=%d v=%d", l, k, v)),
 					dealSeed: uint64(vlib.Seed)*1000 + uint64(x), padSeed: uint64(x) + 7, blindSeed: uint64(x) + 11}
 				d, ok := dealDirect(t, c)
 				if !ok {
